@@ -174,7 +174,11 @@ func faultErr(f hx.Fault) error {
 	case "group":
 		var es ggql.Errors
 		for i := 0; i < f.N; i++ {
-			es = append(es, fmt.Errorf("injected group member %d", i))
+			if f.Same {
+				es = append(es, errors.New("injected group member"))
+			} else {
+				es = append(es, fmt.Errorf("injected group member %d", i))
+			}
 		}
 		return es
 	case "wgroup":
